@@ -29,6 +29,8 @@ class Link:
         self.ticks = 0             # completed scheduler iterations (liveness of this thread, see Session.idle)
         self.error = None          # exception that ended the scheduler thread (harness fault, never a verdict)
         self.trace = []            # last scheduler actions
+        self.slow_first_response = 0.0   # hold everything sent towards the active side for this long, once per connection
+        self.hold_until = {}             # dst pipe -> monotonic time before which nothing is delivered to it
         self.a.on_send = lambda data, gen: self._enqueue(self.p, data)
         self.p.on_send = lambda data, gen: self._enqueue(self.a, data)
         self.thread = threading.Thread(target=stuck.harness_thread(self._run), daemon=True, name="harness-link")
@@ -45,8 +47,8 @@ class Link:
         for dst, conn, data in items:
             if conn != self.connections or not self.connected:
                 continue          # bytes of a connection that no longer exists
-            if not dst.link_up or keep:
-                keep.append((dst, conn, data))   # the peer has not accepted yet: TCP buffers, nothing is lost or reordered
+            if not dst.link_up or keep or self.hold_until.get(dst, 0) > time.monotonic():
+                keep.append((dst, conn, data))   # the peer has not accepted yet / the network is slow: nothing is lost or reordered
                 continue
             pos = 0
             n = len(data)
@@ -101,6 +103,7 @@ class Link:
                 with self.lock:
                     self.connections += 1
                     self.connected = True
+                    self.hold_until = {self.a: time.monotonic() + self.slow_first_response} if self.slow_first_response else {}
                 self._log(f"connect #{self.connections} first={'a' if first is self.a else 'p'}")
                 first.connect(wait=False)
                 if self.rng.random() < 0.5:
